@@ -45,6 +45,11 @@ def get_inherited(t: Type) -> Type:
         r_base = get_origin(r)
         assert r_base is not None, "Internal error"
 
+        # `class X(Generic[T])`: there is nothing above `Generic` to inherit from (and it
+        # can't be parameterized with concrete types).
+        if r_base is typing.Generic:
+            return Any  # type: ignore
+
         # Get us back to typing if this is a common interface.
         # This is not needed in python 3.11 and forward, where
         # collections.abc.X can are all be parameterized.
